@@ -3,6 +3,7 @@
    monitors at every leadership change. *)
 From Coq Require Import List NArith.
 From RaftV Require LogMatching Safety SafetyEx.
+From RaftV Require AppendRefine.
 From RaftV Require Import Base Types Quorum Progress Tracker Storage Log Raft RawNode QuorumProofs RaftMono RaftRouting NodeProps PreVoteProofs LocalProofs FlowProofs LogProofs ConfProofs.
 Import ListNotations.
 Open Scope N_scope.
@@ -40,7 +41,7 @@ Print Assumptions C04_commit_own_term_on_quorum.
    the log of every earlier leadership t0 < t that committed position i. *)
 Theorem C04_new_leader_holds_committed : forall vs s c t i e t0,
   Safety.sreach vs s ->
-  Safety.tm s c = t -> LogMatching.active (Safety.sg s) t = false -> Safety.majority vs (Safety.voted_for s t c) ->
+  Safety.tm s c = t -> Safety.cnd s c = true -> LogMatching.active (Safety.sg s) t = false -> Safety.majority vs (Safety.voted_for s t c) ->
   In (i, e, t0) (Safety.commits s) -> (t0 < t)%N ->
   LogMatching.agree (S i) (Safety.nlog s c) (Safety.L s t0).
 Proof.
@@ -59,8 +60,21 @@ Qed.
 Print Assumptions C04_leader_completeness_protocol.
 
 (* no leader overwrites or truncates such an entry on a follower: a node whose log agrees with a
-   committing leadership through j still does after any step *)
+   committing leadership through j still does after any step in which it keeps position j at all
+   (only its own crash can take an unacknowledged suffix away) *)
 Theorem C04_followers_keep_committed : forall vs s s' m j t,
-  Safety.SInv vs s -> Safety.sstep vs s s' -> Safety.can_learn s m j t -> Safety.can_learn s' m j t.
+  Safety.SInv vs s -> Safety.sstep vs s s' -> Safety.can_learn s m j t ->
+  (S j <= length (Safety.nlog s' m))%nat -> Safety.can_learn s' m j t.
 Proof. exact Safety.can_learn_stable. Qed.
 Print Assumptions C04_followers_keep_committed.
+
+
+(* the voter's test raftLog.isUpToDate(candidate's last term, last index) is the up-to-date rule
+   of Spec/Safety.v on the voter's logical log (Proofs/AppendRefine.v) *)
+Theorem C04_up_to_date_is_protocol_rule : forall (pay : entry -> N) st l term index b lc,
+  AppendRefine.l_wf st l -> a_base (AppendRefine.lview st l) = 0 -> a_base_term (AppendRefine.lview st l) = 0 ->
+  Safety.lastT lc = term -> N.of_nat (length lc) = index ->
+  l_is_up_to_date st l term index = Ok b ->
+  (b = true <-> Safety.utd lc (AppendRefine.absl pay (AppendRefine.lview st l))).
+Proof. exact AppendRefine.l_is_up_to_date_view. Qed.
+Print Assumptions C04_up_to_date_is_protocol_rule.
